@@ -49,6 +49,9 @@ def configs(tier):
     for npts, kb in ((4, 1), (4, 2), (3, 1), (5, 2)):
         for ncpu in (1, 2):
             out.append({"kind": "path", "npts": npts, "k_batch": kb, "ncpu": ncpu, "niter": 0, "calc": "tabpath"})
+    # a 'zoom' path whose points are closer than any matching tolerance (step 4e-7 in reduced coordinates)
+    out.append({"kind": "path", "npts": 6, "k_batch": 2, "ncpu": 1, "niter": 0, "calc": "tabpath", "step": 4e-7})
+    out.append({"kind": "path", "npts": 4, "k_batch": 1, "ncpu": 2, "niter": 0, "calc": "tabpath", "step": 4e-7})
     return out
 
 
@@ -76,6 +79,8 @@ def build(cfg, seed):
         n = cfg["npts"]
         # points outside [0,1) too: TABresult stores k mod 1 and self_to_path must identify periodic images
         kl = [[-0.35 + 1.7 * i / n, 0.13 * i - 0.2, 0.0] for i in range(n)]
+        if "step" in cfg:
+            kl = [[0.31 + cfg["step"] * i, 0.17 - 0.5 * cfg["step"] * i, 0.0] for i in range(n)]
         grid = wb.Path(system, k_list=kl)
     if cfg["calc"] == "scripted":
         calcs = {"scr": ScriptedCalc(salt=1)}
